@@ -264,6 +264,32 @@ fn c01_macro_key_expr_static_labels() {
     c01_macro_key_expr_static_labels_body(kani::any(), kani::any());
 }
 
+// A call site is a piece of code, not a value: executed again with another computed name it must deliver THAT name (nothing
+// about the key may be remembered per call site). Arms 2 and 4 (computed name without / with literal labels), each call site run
+// twice with different names.
+pub fn c01_macro_callsite_twice_body(kind: u8, labels: bool) {
+    kani::assume(kind < 3);
+    let mut round = 0usize;
+    while round < 2 {
+        let nm: &'static str = NAMES[round];       // concrete per round ("na", then "nb"): see name_of for why not symbolic
+        if labels {
+            let spy = Spy::new(exp(nm, L2, Level::INFO, HERE));
+            scoped!(&spy, { emit3!(kind; nm, "k1" => "v1", "k2" => "v2") });
+            spy.assert_registered(OP_REG_COUNTER + kind);
+        } else {
+            let spy = Spy::new(exp(nm, NO_LABELS, Level::INFO, HERE));
+            scoped!(&spy, { emit3!(kind; nm) });
+            spy.assert_registered(OP_REG_COUNTER + kind);
+        }
+        round += 1;
+    }
+}
+#[cfg(kani)]
+#[kani::proof]
+fn c01_macro_callsite_twice() {
+    c01_macro_callsite_twice_body(kani::any(), kani::any());
+}
+
 // key_var! arm 5: ($name: expr, $k: expr => $v: expr, ...)  -- computed label keys / values (constants, variables)
 const K1: &str = "k1";
 pub fn c01_macro_key_expr_labels_body(kind: u8) {
